@@ -134,15 +134,33 @@ def theorems_of(pid):
     return out
 
 
-def forbidden_tokens():
+def import_closure(pid):
+    """the Lean source files the property theorems of `pid` depend on (within DawgieVerif)"""
+    root = os.path.join(LEAN, 'DawgieVerif')
+    todo = list(prop_files(pid))
+    seen = []
+    while todo:
+        f = todo.pop()
+        if f in seen or not os.path.exists(f):
+            continue
+        seen.append(f)
+        for m in re.finditer(r'^import\s+DawgieVerif\.([A-Za-z0-9_.]+)', open(f).read(), flags=re.M):
+            todo.append(os.path.join(root, *m.group(1).split('.')) + '.lean')
+    return seen
+
+
+def forbidden_tokens(pid=None):
     hits = []
-    for root, _d, files in os.walk(os.path.join(LEAN, 'DawgieVerif')):
-        for f in files:
-            if f.endswith('.lean'):
-                src = strip_comments(open(os.path.join(root, f)).read())
-                for i, l in enumerate(src.splitlines()):
-                    if FORBIDDEN.search(l):
-                        hits.append(f'{f}:{i + 1}:{l.strip()}')
+    if pid is None:
+        files = [os.path.join(r, f) for r, _d, fs in os.walk(os.path.join(LEAN, 'DawgieVerif'))
+                 for f in fs if f.endswith('.lean')]
+    else:
+        files = import_closure(pid)
+    for path in files:
+        src = strip_comments(open(path).read())
+        for i, l in enumerate(src.splitlines()):
+            if FORBIDDEN.search(l):
+                hits.append(f'{os.path.basename(path)}:{i + 1}:{l.strip()}')
     return hits
 
 
